@@ -70,7 +70,7 @@ func init() {
 func init() {
 	properties["C08"] = Property{
 		Level: "exploration",
-		Rule:  "one case = (dependency graph, deletion prefix, state kind) observed after the deletion: GetFact of every id ever used, StateSize, ListRules and the MemStorage contents compared with the model closure; graphs over <=7 ids (chains, fans, cycles, self-loops, dangling targets, rules, `disabled` property facts, variable-looking ids); deletion by RemFact, RemRule, of absent ids, and by expiry (ttl 1 s observed after 2.2 s); non-trivial = the deletion removed >=2 ids in the model; distinct by canonical JSON of (state, operation list); reload steps between building and deleting, before the expiry instant and after it (item expiring while unloaded); a quarter of the facts are written by a script (Env.AddFact)",
+		Rule:  "one case = (dependency graph, deletion prefix, state kind) observed after the deletion: GetFact of every id ever used, StateSize, ListRules and the MemStorage contents compared with the model closure; graphs over <=7 ids (chains, fans, cycles, self-loops, dangling targets, rules, `disabled` property facts, variable-looking ids); deletion by RemFact, RemRule, of absent ids, and by expiry (ttl 1 s observed after 2.2 s); non-trivial = the deletion removed >=2 ids in the model; distinct by canonical JSON of (state, operation list); reload steps between building and deleting, before the expiry instant and after it (item expiring while unloaded); a quarter of the facts are written by a script (Env.AddFact); one node in five gets a property written in fact form ({\"id\":target,\"!note\":..}, with or without its own deleteWith)",
 		Floor: [2]int{200, 2000},
 		Assumptions: []string{"lib/ref.Loc.Rem (worklist closure; Rem of an absent id still cascades, as both implementations and the manual do) is the specification", "per-call watchdog of 20 s decides 'terminates'"},
 		Stages: []Stage{{Name: "cascade", Pkg: "./mon/c08", Procs: 1, Batches: [2]int{8, 16}, TimeoutS: [2]int{600, 3000}}},
